@@ -621,7 +621,7 @@ func (cs *ContractSet) ParseContractFile(path, pkg string, trusted bool) error {
 				}
 				for _, p := range splitTop(rest, ',') {
 					p = strings.TrimSpace(p)
-					if p == "*" || p == "atomic(*)" || strings.HasSuffix(p, ".*") || strings.Contains(p, "::") {
+					if p == "*" || strings.HasPrefix(p, "*!") || p == "atomic(*)" || strings.HasSuffix(p, ".*") || strings.Contains(p, "::") {
 						cur.Modifies = append(cur.Modifies, Clause{Text: p, File: path, Line: ln.n})
 						continue
 					}
